@@ -199,6 +199,55 @@ theorem T_C19_delete (nx ny nz i j k : Nat) (hi : i < nx) (hj : j < ny) (hk : k 
   · intro o
     simp [List.mem_filter]
 
+/-- a stack and a copy of it in one mesh (`stack.copy().translate(…)`): operations are objects, a copy is another object -/
+def withCopy (ops : List Loft) : List (Bool × Loft) := ops.map (fun o => (false, o)) ++ ops.map (fun o => (true, o))
+
+/-- Deleting `copy.grid[k][j][i]` (or `stack.grid[k][j][i]`) from the operations of a stack *and its copy* removes that one
+    object: its sibling at the same grid index in the other stack stays, as does everything else. -/
+theorem T_C19_delete_copy (nx ny nz i j k : Nat) (which : Bool) (hi : i < nx) (hj : j < ny) (hk : k < nz) :
+    ∃ G, stackGrid nx ny nz = some G ∧ (withCopy (stackOps G)).Nodup ∧
+      (which, cell i j k) ∈ withCopy (stackOps G) ∧
+      (!which, cell i j k) ∈ (withCopy (stackOps G)).filter (fun o => decide (o ≠ (which, cell i j k))) ∧
+      ((withCopy (stackOps G)).filter (fun o => decide (o ≠ (which, cell i j k)))).length + 1 = (withCopy (stackOps G)).length ∧
+      ∀ o, o ∈ (withCopy (stackOps G)).filter (fun o => decide (o ≠ (which, cell i j k))) ↔
+        (o ∈ withCopy (stackOps G) ∧ o ≠ (which, cell i j k)) := by
+  have hm : cell i j k ∈ stackOps ((List.range nz).map (tier nx ny)) := by
+    rw [mem_stackOps]; exact ⟨i, j, k, hi, hj, hk, rfl⟩
+  have hnd : (withCopy (stackOps ((List.range nz).map (tier nx ny)))).Nodup := by
+    unfold withCopy
+    rw [List.nodup_append]
+    refine ⟨?_, ?_, ?_⟩
+    · exact List.Nodup.map (fun a b h => by simpa using h) (stackOps_nodup nx ny nz)
+    · exact List.Nodup.map (fun a b h => by simpa using h) (stackOps_nodup nx ny nz)
+    · intro a ha b hb
+      simp only [List.mem_map] at ha hb
+      obtain ⟨x, _, rfl⟩ := ha
+      obtain ⟨y, _, rfl⟩ := hb
+      simp
+  have hmem : ∀ w : Bool, (w, cell i j k) ∈ withCopy (stackOps ((List.range nz).map (tier nx ny))) := by
+    intro w
+    unfold withCopy
+    cases w
+    · exact List.mem_append_left _ (List.mem_map.mpr ⟨_, hm, rfl⟩)
+    · exact List.mem_append_right _ (List.mem_map.mpr ⟨_, hm, rfl⟩)
+  refine ⟨_, stackGrid_eq nx ny nz, hnd, hmem which, ?_, ?_, ?_⟩
+  · simp only [List.mem_filter]
+    refine ⟨hmem (!which), ?_⟩
+    cases which <;> simp
+  · have he := List.Nodup.erase_eq_filter hnd (which, cell i j k)
+    have hl := List.length_erase_of_mem (hmem which)
+    have hpos := List.length_pos_of_mem (hmem which)
+    have : (withCopy (stackOps ((List.range nz).map (tier nx ny)))).filter (fun o => decide (o ≠ (which, cell i j k)))
+        = (withCopy (stackOps ((List.range nz).map (tier nx ny)))).erase (which, cell i j k) := by
+      rw [he]
+      apply List.filter_congr
+      intro o _
+      by_cases h : o = (which, cell i j k) <;> simp [h]
+    rw [this, hl]
+    omega
+  · intro o
+    simp [List.mem_filter]
+
 /-! ### round sketches and shapes: `decide` on the tables generated from the current source -/
 
 /-- `WrappedDisk` is a disk inside a square: its middle ring is neither in `core` nor in `shell` (see below) -/
